@@ -85,3 +85,86 @@ for _cname in CONTENTS:
                 keys = [(d, c) for d, c in v.conds if d.startswith("key")]
                 yield ("numeric ranges of the schema hold", conj(c for _, c in ranges), ranges)
                 yield ("id / reference key constraints hold", conj(c for _, c in keys), keys[:200])
+
+
+# ------------------------------------------------------------------------------ every enumeration member the schema lists
+
+
+def _xsd_enums():
+    from lxml import etree
+
+    t = etree.parse(XSD)
+    ns = {"xs": "http://www.w3.org/2001/XMLSchema"}
+    out = {}
+    for stp in t.xpath("//xs:simpleType[@name]", namespaces=ns):
+        vals = {e.get("value") for e in stp.xpath(".//xs:enumeration", namespaces=ns)}
+        if vals:
+            out[stp.get("name")] = vals
+    return out
+
+
+def _schema_members(enum, role):
+    """the members of a Python enumeration the schema can express (the property quantifies over schema-expressible scenarios)"""
+    xs = _XSD_ENUMS
+    name = enum.__name__
+    if name == "LaneletType":
+        ok = xs["laneletType"]
+    elif name == "LineMarking":
+        ok = xs["lineMarking"]
+    elif name == "RoadUser":
+        ok = xs["vehicleType"]
+    elif name == "ObstacleType":
+        ok = xs["obstacleTypeStatic"] if role == "static" else xs["obstacleTypeDynamic"]
+    elif name == "TrafficLightState":
+        ok = xs["trafficLightColor"]
+    elif name == "TimeOfDay":
+        ok = xs["timeOfDay"]
+    elif name == "Weather":
+        ok = xs["weather"]
+    elif name == "Underground":
+        ok = xs["underground"]
+    elif name.startswith("TrafficSignID"):
+        ok = xs["trafficSignID"]
+    else:
+        return list(enum)
+    return [m for m in enum if m.value in ok]
+
+
+_XSD_ENUMS = _xsd_enums()
+
+from contracts.c01_enums import GROUPS as _ENUM_GROUPS, build_group as _build_group  # noqa: E402
+
+def _expressible(group):
+    if not group.startswith("traffic signs of "):
+        return True
+    from commonroad.scenario.traffic_sign import SupportedTrafficSignCountry, TrafficSignIDCountries
+
+    return bool(_schema_members(TrafficSignIDCountries[SupportedTrafficSignCountry[group.split(" of ")[1]].value], None))
+
+
+for _g in [g for g in _ENUM_GROUPS if _expressible(g)]:
+
+    @register
+    class SchemaValidEnums(SchemaValid):
+        case = "every schema-listed member: " + _g
+        group = _g
+        describe = "exhaustive over the members the schema lists: the written value is one of the schema's enumeration values, in a valid document"
+
+        def build(self, F):
+            import numpy as np
+
+            import commonroad.scenario.state as st
+            from commonroad.common.util import Interval
+            from commonroad.planning.goal import GoalRegion
+            from commonroad.planning.planning_problem import PlanningProblem
+            from commonroad.scenario.lanelet import Lanelet
+
+            sc = _build_group(F, self.group, False, _schema_members)
+            if not F.items(F.attr(F.attr(sc, "lanelet_network"), "lanelets")):
+                from commonroad.common.common_lanelet import LaneletType
+
+                F.method(sc, "add_objects", F.new(Lanelet, np.array([[0.0, 1.0], [5.0, 1.0]]), np.array([[0.0, 0.5], [5.0, 0.5]]), np.array([[0.0, 0.0], [5.0, 0.0]]), 900,
+                                                  lanelet_type={LaneletType.URBAN}))
+            init = st.InitialState(time_step=0, position=np.array([0.0, 0.0]), orientation=0.0, velocity=0.0, yaw_rate=0.0, slip_angle=0.0)
+            pps = F.new(PlanningProblemSet, [F.new(PlanningProblem, 901, init, GoalRegion([st.CustomState(time_step=Interval(0, 10))]))])
+            return {"sc": sc, "pps": pps, "args": []}
